@@ -429,4 +429,79 @@ def swap2 (ca cb : Cfg) (a b : Nat) : M α Unit := do
     setSize ca a sb
     setSize cb b sa
 
+/- ------------------------------------------------------------------------------------------------
+   read-only accessors and comparisons (`at`, `operator[]`, `front`, `back`, `data`, `empty`, `max_size`, `operator==`, `<`, …).
+   A returned reference is modelled by the VALUE of the element it designates, read when the member returns: reading a slot
+   that holds no live element is a fault (the `assert`s of the source are not modelled, as everywhere in this file: what they
+   guard against surfaces as a fault of the memory model). `eqT` / `ltT` are `operator==` / `operator<` of the element type.
+   ------------------------------------------------------------------------------------------------ -/
+
+/-- `std::equal(first1, last1, first2)` with `operator==` of the elements, on the values of the two ranges (the second one is
+    read as long as the first) -/
+def stdEqual (eqT : α → α → Bool) : List α → List α → Bool
+  | [], _ => true
+  | _ :: _, [] => false
+  | x :: xs, y :: ys => eqT x y && stdEqual eqT xs ys
+
+/-- `std::lexicographical_compare(first1, last1, first2, last2)` with `operator<` of the elements -/
+def stdLexLt (ltT : α → α → Bool) : List α → List α → Bool
+  | _, [] => false
+  | [], _ :: _ => true
+  | x :: xs, y :: ys => if ltT x y then true else if ltT y x then false else stdLexLt ltT xs ys
+
+/-- `at(idx)`: throws `std::out_of_range` when `idx >= size()` -/
+def atIdx (cfg : Cfg) (c : Nat) (i : Nat) : M α α := do
+  if i ≥ (← vsize cfg c) then raise .outOfRange
+  readLive ((← vbegin cfg c).add i)
+
+/-- `operator[](idx)`: no check; `idx >= size()` reads a slot without a live element (fault) -/
+def index (cfg : Cfg) (c : Nat) (i : Nat) : M α α := do
+  readLive ((← vbegin cfg c).add i)
+
+/-- `front()` -/
+def front (cfg : Cfg) (c : Nat) : M α α := do
+  readLive (← vbegin cfg c)
+
+/-- `back()`: `*(end() - 1)` -/
+def back (cfg : Cfg) (c : Nat) : M α α := do
+  let e ← vend cfg c
+  readLive ⟨e.r, e.i - 1⟩
+
+/-- `data()` -/
+def dataPtr (cfg : Cfg) (c : Nat) : M α Addr := vbegin cfg c
+
+/-- `empty()` -/
+def isEmpty (cfg : Cfg) (c : Nat) : M α Bool := do
+  return decide ((← vsize cfg c) = 0)
+
+/-- `max_size()`: `numeric_limits<size_type>::max()` (DynamicVector), `capacity()` (StaticVector) -/
+def maxSize (cfg : Cfg) (c : Nat) : M α Nat :=
+  if cfg.dynamic then pure cfg.ops.kMax else vcap cfg c
+
+/-- `*this == o`: equal sizes and `std::equal` (the elements are only read when the sizes agree) -/
+def vecEqual (eqT : α → α → Bool) (cfg : Cfg) (c d : Nat) : M α Bool := do
+  if (← vsize cfg c) = (← vsize cfg d) then
+    return stdEqual eqT (← elems cfg c) (← elems cfg d)
+  else
+    return false
+
+/-- `*this < o`: `std::lexicographical_compare` -/
+def vecLess (ltT : α → α → Bool) (cfg : Cfg) (c d : Nat) : M α Bool := do
+  return stdLexLt ltT (← elems cfg c) (← elems cfg d)
+
+/-- `*this != o` is `!(*this == o)` -/
+def vecNotEqual (eqT : α → α → Bool) (cfg : Cfg) (c d : Nat) : M α Bool := do
+  return !(← vecEqual eqT cfg c d)
+
+/-- `*this <= o` is `!(o < *this)` -/
+def vecLessEq (ltT : α → α → Bool) (cfg : Cfg) (c d : Nat) : M α Bool := do
+  return !(← vecLess ltT cfg d c)
+
+/-- `*this > o` is `o < *this` -/
+def vecGreater (ltT : α → α → Bool) (cfg : Cfg) (c d : Nat) : M α Bool := vecLess ltT cfg d c
+
+/-- `*this >= o` is `!(*this < o)` -/
+def vecGreaterEq (ltT : α → α → Bool) (cfg : Cfg) (c d : Nat) : M α Bool := do
+  return !(← vecLess ltT cfg c d)
+
 end AmcVerif
